@@ -35,9 +35,10 @@ def main():
         return 2
     out = {"patch": patch, "results": {}}
     try:
-        t = sh("cd %s && /venv/bin/python -m pytest -q -p no:cacheprovider --timeout=900 --continue-on-collection-errors 2>&1 | tail -1" % REPO)
-        out["tests"] = t.stdout.strip()
-        print("baseline tests with the change:", out["tests"])
+        if "--no-tests" not in sys.argv:
+            t = sh("cd %s && /venv/bin/python -m pytest -q -p no:cacheprovider --timeout=900 --continue-on-collection-errors 2>&1 | tail -1" % REPO)
+            out["tests"] = t.stdout.strip()
+            print("baseline tests with the change:", out["tests"])
         for p in props:
             t0 = time.time()
             # evidence of runs on a changed tree must not overwrite the committed evidence
